@@ -29,6 +29,18 @@ structure Oracle where
   /-- `_get_ass_typ` on an `Assign` -/
   assignTyp : List String → List String → Option String
 
+def isIdentStr (s : String) : Bool :=
+  match s.toList with
+  | [] => false
+  | c :: cs => (c.isAlpha || c == '_') && cs.all (fun d => d.isAlphanum || d == '_')
+
+/-- `set_docstring` overwrites `body[0]` when `isinstance(get_value(node.body[0].value), str)`.  Besides a string
+    constant that is the case for a bare name (`get_value(Name)` is its `id`) and for the constant `None`
+    (`get_value` returns `NoneStr`): such a first statement is *replaced* by the docstring. -/
+def strLikeExpr : Stmt → Bool
+  | .expr src => src == "None" || (isIdentStr src && src != "True" && src != "False")
+  | _ => false
+
 /-- `set_docstring(doc, False, node)` / `del node.body[0]` -/
 def setDoc (body : List Stmt) (orig newDoc : Option String) : List Stmt :=
   match newDoc with
@@ -36,7 +48,8 @@ def setDoc (body : List Stmt) (orig newDoc : Option String) : List Stmt :=
   | some d =>
     match body with
     | .strExpr _ :: rest => .strExpr d :: rest
-    | b => .strExpr d :: b
+    | s :: rest => if strLikeExpr s then .strExpr d :: rest else .strExpr d :: s :: rest
+    | [] => [.strExpr d]
 
 /-- the `node.args.args = …` rewrite of `_handle_function` -/
 def rewriteArgs (o : Oracle) (typeAnnotations : Bool) (path : List String) (a : Args) : Args :=
